@@ -132,3 +132,11 @@ CLAIMS["C12"] = (
     "Builds on C06 for the translator; parameters defined by initial assignments are outside the symbolic export (conversion raises).",
     "DESIGN.md section 4 C12",
 )
+CLAIMS["C07"] = (
+    "order-provenance check of the emission loop, coverage check of the emitted parameter classes, filter detection on the return list, string.Formatter field analysis of every back end's templates, ast-parse of the instantiated Python templates, None-visibility at the translation call sites, sibling agreement of the four back ends on free parameters",
+    "Decides for all models: (G1) assignments for derived quantities and reactions are emitted in one pass over the cached dependency order, sums after them; (G2) initial-assignment parameters are emitted; (G3) whether the returned list has one entry per variable in declaration order - it does not (variables without reactions are dropped; '()' for no reactions): known findings frozen by golden-string tests; "
+    "(G4) each template consumes the fields it is given - the Julia assignment template drops {k}: known finding; (G5) Python unpack/return templates are tuple patterns for n = 1; (G6) untranslatable functions raise; (G7) all four back ends forward and declare free parameters. "
+    "Numeric equivalence of the generated code and syntax of the TS/Rust/Julia output beyond template fields are not decided (no parser for those languages in this family).",
+    "Trusts sympy's code printers. Three genuine defects remain as known findings because the repository's own golden tests pin the defective output.",
+    "DESIGN.md section 4 C07",
+)
